@@ -75,6 +75,10 @@ func (o op) coq() string {
 		return fmt.Sprintf("OEnvPut %d %s", o.Kd, optZ(o.Del, o.V))
 	case "IsLeader":
 		return fmt.Sprintf("OIsLeader %d", o.M)
+	case "KeepBegin":
+		return fmt.Sprintf("OKeepBegin %d", o.M)
+	case "KeepEnd":
+		return fmt.Sprintf("OKeepEnd %d", o.M)
 	}
 	return "ORead"
 }
@@ -82,6 +86,8 @@ func (o op) coq() string {
 type pend struct{ done chan string }
 
 type mem struct {
+	keep   *etcdx.KeepCtl
+	cancel context.CancelFunc
 	m     *member.Member
 	ctl   *etcdx.CtlKV
 	alloc id.Allocator
@@ -101,14 +107,14 @@ type world struct {
 }
 
 func (w *world) newMember(i int) *mem {
-	cli, ctl, err := w.e.NewClient()
+	cli, ctl, keep, err := w.e.NewClientKeep()
 	if err != nil {
 		panic(err)
 	}
 	m := member.NewMember(w.e.Srv, cli, uint64(100+i))
 	cfg := &config.Config{AdvertiseClientUrls: fmt.Sprintf("http://c%d", i), AdvertisePeerUrls: fmt.Sprintf("http://p%d", i)}
 	m.MemberInfo(cfg, fmt.Sprintf("pd%d", i), w.root)
-	return &mem{m: m, ctl: ctl, alloc: id.NewAllocator(cli, w.root, m.MemberValue())}
+	return &mem{m: m, ctl: ctl, keep: keep, alloc: id.NewAllocator(cli, w.root, m.MemberValue())}
 }
 
 // noteLeases appends lease ids that appeared on etcd since the last call (one per successful Grant).
@@ -287,6 +293,26 @@ func (w *world) exec(o op) string {
 		return "BUnit"
 	case "IsLeader":
 		return "BBool " + coqfmt.Bool(w.mems[o.M].m.IsLeader())
+	case "KeepBegin":
+		x := w.mems[o.M]
+		x.keep.Hold()
+		kctx, kcancel := context.WithCancel(context.Background())
+		x.cancel = kcancel
+		go x.m.KeepLeader(kctx)
+		select {
+		case <-x.keep.Held():
+		case <-time.After(10 * time.Second):
+			panic("keep-alive response never arrived")
+		}
+		return "BStarted"
+	case "KeepEnd":
+		x := w.mems[o.M]
+		x.keep.Release()
+		time.Sleep(60 * time.Millisecond) // let lease.KeepAlive store the expiry it was sent
+		return "BUnit"
+	case "Sleep":
+		time.Sleep(time.Duration(o.TTL) * time.Millisecond)
+		return ""
 	case "Read":
 		get := func(k string) []byte {
 			r, err := w.admin.Get(ctx, path.Join(w.root, k))
@@ -489,6 +515,9 @@ func runCase(e *etcdx.Etcd, admin *clientv3.Client, root string, nmem int, ops [
 	skipEnd := map[int]bool{}
 	step := func(o op) string {
 		b := w.exec(o)
+		if o.K == "Sleep" {
+			return b
+		}
 		c.Ops = append(c.Ops, o)
 		c.Obs = append(c.Obs, b)
 		return b
@@ -514,6 +543,10 @@ func runCase(e *etcdx.Etcd, admin *clientv3.Client, root string, nmem int, ops [
 	step(op{K: "Read"})
 	// release what is left so that later cases do not accumulate live leases and clients
 	for _, x := range w.mems {
+		if x.cancel != nil {
+			x.cancel()
+		}
+		x.keep.Pass()
 		x.m.ResetLeader()
 	}
 	for _, l := range w.leases {
@@ -524,6 +557,18 @@ func runCase(e *etcdx.Etcd, admin *clientv3.Client, root string, nmem int, ops [
 		}
 	}
 	return c, !w.late
+}
+
+// slow keep-alive scenario: the holder's first keep-alive response is delivered late and no further one arrives; the
+// local expiry must be counted from the moment the renewal was REQUESTED (that is when etcd extended the lease), so the
+// holder stops being leader no later than etcd lets a contender in.
+func slowKeepAliveScenario() []op {
+	return []op{
+		{K: "Campaign", M: 0, TTL: 3}, {K: "KeepBegin", M: 0}, {K: "Sleep", TTL: 2600}, {K: "KeepEnd", M: 0},
+		{K: "Expire", L: 0}, {K: "Read"},
+		{K: "Campaign", M: 1, TTL: 60}, {K: "Read"},
+		{K: "IsLeader", M: 0}, {K: "IsLeader", M: 1},
+	}
 }
 
 type job struct {
@@ -581,6 +626,7 @@ func main() {
 	}
 	if *replay == "" {
 		add(2, staleDeleteScenario())
+		add(2, slowKeepAliveScenario())
 		master := rng.New(*seed)
 		for k := 0; k < *n; k++ {
 			r := master.Fork(uint64(k))
